@@ -289,6 +289,32 @@ def w_shape_copies(idx):
                 if [texts[k - 1] for k in src] != texts[nb:]:
                     out.append(("copy:not-equal:whitespace-texts", f"source (tail, content) {[texts[k - 1] for k in src]} copy {texts[nb:]}", replay))
             n += 1
+        # the same source with namespace declarations of their own on INNER nodes, made after the tree was assembled (top-down
+        # or bottom-up): add_namespace hands one map OBJECT to a whole subtree - which nodes share a map object is layout,
+        # the copy of every node carries the bindings of ITS source node
+        if len(t["from"]["kids"]) > 2:
+            w4 = World.build({"name": t["from"]["name"], "kids": t["from"]["kids"]})       # (attached with add_child: parent and child share their empty map)
+            order = list(range(len(w4.nodes)))
+            if i % 2:
+                order.reverse()
+            for j in order:
+                x = w4.nodes[j]
+                if x.children or j % 2 == 0:
+                    x.add_namespace("p%d" % (j % 3), "urn:%d" % j)
+            nb = len(w4.nodes)
+            ok, ret, exc = w4.apply("copy", op["args"])
+            if not ok:
+                out.append((opkey(op, "raised:inner-declarations", exc), repr(exc), replay))
+            else:
+                got = w4.pi(("name", "kids", "ns"))
+                kids = t["from"]["kids"]
+
+                def pre4(k):
+                    return [k] + [y for c in kids[k - 1] for y in pre4(c)]
+                src = pre4(op["args"][0])
+                if [got["ns"][k - 1] for k in src] != [got["ns"][j] for j in range(nb, len(w4.nodes))]:
+                    out.append(("copy:not-equal:inner-declarations:ns", f"source ns {[got['ns'][k - 1] for k in src]} copy ns {got['ns'][nb:]}", replay))
+            n += 1
     return n, out
 
 
